@@ -7,6 +7,10 @@ SPEC = {
     'parts': [
         {'pkg': 'execute', 'src': 'harness/execute/c07_test.go', 'test': 'TestVerif_C07', 'fakes': True,
          'sinks': {'C07_merge': 'c07_judge'}, 'n': {'quick': 850, 'thorough': 28000}},
+        {'pkg': 'execute', 'src': 'harness/execute/c07_test.go', 'test': 'TestVerif_C07_outcome', 'fakes': True,
+         'sinks': {'C07_outcome': 'c07o_judge'}, 'n': {'quick': 300, 'thorough': 10000}},
+        {'pkg': 'execute', 'src': 'harness/execute/c07_test.go', 'test': 'TestVerif_C07_quorum', 'fakes': True,
+         'sinks': {'C07_quorum': 'quorum_judge'}, 'n': {'quick': 100, 'thorough': 2000}},
     ],
     'known': {'2': 'F13e'},
     'rule': 'DONs of 4..10 oracles (ids from 0..15), 1..3 source chains + destination, per-chain f in 1..3 (class weird-f: '
@@ -19,7 +23,10 @@ SPEC = {
             'may not read, costly ids repeated adjacently and with other ids in between ([A,A], [A,B,A], [A,B,B,A], spread over several ids), '
             'foreign costly ids, variant and re-chained nonces, variant / missing / extra / re-keyed token slots, token data / nonces / costly '
             'flags from oracles without the role for them, unknown chain keys). Every observation goes through JSON, Plugin.ValidateObservation and, if '
-            'accepted, getConsensusObservation. non-trivial = merge succeeded on >= 2 accepted observations; distinct by full input',
+            'accepted, getConsensusObservation. outcome: the same generator with N in {4,7}, F in {1,2}, f(source) != f(dest), through execute.Plugin.ValidateObservation + '
+            'execute.Plugin.Outcome (F from the reporting config, fChain from the plugin\'s home chain) in the GetCommitReports phase (decoded '
+            'PendingCommitReports) and the GetMessages phase (messages attached to one wide pending report per chain), judged by the same clauses. '
+            'quorum: execute.Plugin.ObservationQuorum at F-1..2F+1 observations. non-trivial = merge succeeded on >= 2 accepted observations; distinct by full input',
     'trusted': ['item identity = the implementation\'s id function (sha3 of "%v"; TokenDataHash): the harness interns the same '
                 'rendering, the other item fields are functions of it',
                 'HomeChain.GetSupportedChainsForPeer answers are an oracle (scripted fake); fChain is an input (the plugin reads it from its local home-chain view)',
